@@ -47,6 +47,28 @@ def handle (st : Option SCase) (args : List String) : Option SCase × String :=
       let t := mkTx seq coding orfStart orfEnd startNF endNF sec
       let vs := (splitList vars ';').filterMap parseVar
       (st, pepsOut (callVariant g t vs))
+  | ["cvb", seq, coding, orfStart, orfEnd, startNF, endNF, sec, orfLimit, isFusion, vars,
+      rule, exc, misc, minMw, minLen, maxLen, sect, w2f, deny, canon] =>
+    match mkCfg rule exc misc minMw minLen maxLen sect w2f canon with
+    | none => (st, "bad-rule")
+    | some g =>
+      let t0 := mkTx seq coding orfStart orfEnd startNF endNF sec
+      let t := { t0 with orfLimit := if orfLimit == "-" then none else some orfLimit.toNat!,
+                         isFusion := parseBool isFusion }
+      let vs := (splitList vars ';').filterMap parseVar
+      (st, pepsOut (callBackbone g t vs ((splitList deny ',').map String.toList)))
+  | ["cvc", seq, vars, rule, exc, misc, minMw, minLen, maxLen, w2f, deny, canon] =>
+    match mkCfg rule exc misc minMw minLen maxLen "0" w2f canon with
+    | none => (st, "bad-rule")
+    | some g =>
+      let vs := (splitList vars ';').filterMap parseVar
+      (st, pepsOut (callCirc g seq.toList vs ((splitList deny ',').map String.toList)))
+  | ["cvcm", seq, vars, rule, exc, misc, minMw, minLen, maxLen, w2f, deny, canon] =>
+    match mkCfg rule exc misc minMw minLen maxLen "0" w2f canon with
+    | none => (st, "bad-rule")
+    | some g =>
+      let vs := (splitList vars ';').filterMap parseVar
+      (st, pepsOut (callCircMixed g seq.toList vs ((splitList deny ',').map String.toList)))
   | ["ref", seq, coding, orfStart, orfEnd, startNF, endNF, sec,
       rule, exc, misc, minMw, minLen, maxLen, sect, w2f] =>
     match mkCfg rule exc misc minMw minLen maxLen sect w2f "" with
